@@ -94,7 +94,8 @@ def run_driver(exe, stimfile, tracefile, fmode, san=False):
             if p.returncode != 3:
                 out.write(json.dumps({"t": "op", "id": m["id"], "i": -1, "op": "unknown", "c": "A", "s": "-", "a": [],
                                       "k": [m["k"], m.get("k2", 0)], "out": "crash"}).encode() + b'\n')
-            start, k = m['n'], m['k'] + 1
+            # a fatal outcome without any injected fault: the fault variants of this stimulus are pointless
+            start, k = (m['n'] + 1, 0) if m['k'] == 0 else (m['n'], m['k'] + 1)
             restarts += 1
     return restarts
 
